@@ -116,6 +116,10 @@ def real_default(src, timeout=30):
         return ("error", ("run", type(e).__name__, site))
 
 
+def _default_only(src):
+    return real_default(src)
+
+
 def run_both(src):
     """Worker: default pipeline and staged pipeline with evidence propagation. Returns picklable data only."""
     runs = [("default", real_default(src))]
@@ -197,6 +201,28 @@ def run(ctx):
     else:
         for i in range(nprog):
             progs.append(spine.gen_program(rng, disjunction=True))
+    # pinned regression corpus: programs inside the structural region of known finding F1 that the tree answered
+    # correctly when the corpus was built (tools/gen_c01_corpus.py); a failure here is never matched by the finding
+    import json
+    import os
+    from lib import VERIF
+    import cfgprop
+    import semcheck
+    cpath = os.path.join(VERIF, "corpus", "C01", "f1_region_answered.json")
+    if os.path.exists(cpath) and not ctx.replay_in:
+        corpus = [cfgprop.load_program(P) for P in json.load(open(cpath))]
+        csem = semcheck.spec_batch(drv, corpus)
+        from lib import pmap as _pmap
+        cruns = _pmap(_default_only, [spine.to_src(P) for P in corpus])
+        for P, sem, r in zip(corpus, csem, cruns):
+            ctx.case("corpus:" + spine.to_src(P), nontrivial=True)
+            bad = semcheck.compare(P, sem, r, "default")
+            if bad and not (r[0] == "error" and r[1][1] == "Timeout"):
+                ctx.fail("corpus program (answered correctly when the corpus was built): %s | program: %s" % (
+                    bad[0][0], spine.to_src(P).replace("\n", " ")), {"program": P, "src": spine.to_src(P), "corpus": True},
+                    {"kind": "corpus-regression"})
+                break
+        ctx.count("corpus programs (F1 region, answered)", len(corpus))
     lines, qis = [], []
     for P in progs:
         line, qinst = spine.sem_line(P)
